@@ -1799,6 +1799,14 @@ class Module(ABC):
         ], "Number of comps and clamps do not match."
 
         if data_external_input is not None:
+            if data_external_input[0] != state_name:
+                # The returned tuple carries a single state name: chaining inputs of
+                # different states would silently relabel the earlier ones.
+                raise ValueError(
+                    f"The inputs passed on are for `{data_external_input[0]}`, but "
+                    f"`{state_name}` was requested. Only inputs of the same state can "
+                    "be chained."
+                )
             external_input = data_external_input[1]
             external_input = jnp.concatenate([external_input, state_array])
             inds = data_external_input[2]
